@@ -451,6 +451,34 @@ func execFaults(args []string) string {
 			return "streamed-message-not-finished"
 		}
 		return "contiguous"
+	case "stall-readloop": // the Close frame of a local close is stalled in the transport (holding the write lock) and the read side fails: the read loop still returns
+		sh := newRecorder()
+		pd := gws.PermessageDeflate{Enabled: true, ServerContextTakeover: true, ClientContextTakeover: true}
+		s, sc, peer, err := serverConnRaw(&gws.ServerOption{PermessageDeflate: pd}, sh, "permessage-deflate")
+		if err != nil {
+			return "handshake-failed"
+		}
+		loopDone := make(chan struct{})
+		go func() { s.ReadLoop(); close(loopDone) }()
+		sc.Stall()
+		closeDone := make(chan struct{})
+		go func() { _ = s.WriteClose(1000, nil); close(closeDone) }()
+		if !sc.WaitStalled(1, 2*time.Second) {
+			return "bad-op close-frame-did-not-stall"
+		}
+		_, _ = peer.Write([]byte{0x81, 0x01, 'x'}) // an unmasked frame: the server's read side fails
+		v := "readloop-returned"
+		select {
+		case <-loopDone:
+		case <-time.After(1500 * time.Millisecond):
+			v = "readloop-blocked-behind-stalled-close-frame"
+		}
+		sc.Unstall()
+		_ = sc.Close()
+		<-closeDone
+		<-loopDone
+		settle(2 * time.Second)
+		return v
 	case "stall-close": // a local close while another writer is stalled on a peer that stopped reading
 		sh := newRecorder()
 		s, sc, _, err := serverConnRaw(&gws.ServerOption{}, sh, "")
@@ -591,4 +619,5 @@ func genFaults(g *Gen) {
 	}
 	g.Emit("faults hs-client-stall")
 	g.Emit("faults stall-close")
+	g.Emit("faults stall-readloop")
 }
